@@ -769,6 +769,28 @@ def run_derived(ctx, spec):
             ctx.see('derived_by', 'rename_layer')
             check_geometry_names(ctx, geo, c, prefix='renamed-layers:')
             file_names_roundtrip(ctx, geo, c, 'rename_layer')
+    # the layer stack built directly (add_layers() is what every constructor ends in, and from_amesh() / from_layermesh()
+    # hand it the caller's character set as given): a set that repeats a letter still gives distinct names
+    for conv in range(4):
+        for chars in ('aabc', 'abca', 'abcdefghijklmnopqrstuvwxyzaeiou', 'xyzzy'):
+            for n in (3, 7, 30):
+                for justify, spaces in (('r', True), ('l', False)):
+                    c = {'kind': 'derived', 'operation': 'add_layers', 'convention': conv, 'chars': chars, 'layers': n, 'justify': justify, 'spaces': spaces}
+                    geo = mg.mulgrid(convention=conv, atmos_type=2)
+                    with ctx.guard(c, where='add_layers', expected=(mg.NamingConventionError,)) as g:
+                        geo.add_layers([2.0] * n, 10.0, justify, chars, spaces)
+                    ctx.evaluated()
+                    ctx.count('layer_stacks_built_directly')
+                    nuniq = len(set(chars))
+                    length, cap = capacity('layer', conv, nuniq, spaces)
+                    # (the surface layer's own name is skipped by the generator: one number more may be needed)
+                    if g.raised is not None:
+                        if isinstance(g.raised, mg.NamingConventionError) and n + 1 <= cap:
+                            ctx.violation('premature-naming-error:add_layers', 'add_layers() raised %s for %d layers, %d names fit' % (g.raised, n, cap), c)
+                        continue
+                    names = [l.name for l in geo.layerlist]
+                    if len(names) != n + 1 or len(set(names)) != len(names) or any(len(x) != length for x in names[1:]):
+                        ctx.violation('add_layers:names', '%d thicknesses gave layers %r' % (n, names[:8]), c)
     for kind, what, conv, atm, op in cases:
         c = {'kind': 'derived', 'from': what, 'convention': conv, 'atmos_type': atm, 'operation': op}
         try:
